@@ -174,3 +174,71 @@ def run_pairs(rep, cases, family):
         if a != b:
             rep.corr_break(family, m["cmd"], out[cid][0], rm.get(cid))
     return out
+
+
+def chunk_list(png):
+    out, off = [], 8
+    while off + 12 <= len(png):
+        ln = int.from_bytes(png[off:off + 4], "big")
+        out.append(png[off:off + 12 + ln])
+        off += 12 + ln
+    return out
+
+
+def optimal_differing(rng, impl, opts="-", want=3, tries=60):
+    """inputs that the optimiser cannot improve (the call returns them unchanged) although its own re-encoding of them is
+    DIFFERENT bytes of the same or larger size: the cases in which 'return / write the original' is observable.
+    Built from already-optimal chunk-rich files by moving ancillary chunks to places the encoder does not put them."""
+    import chunkgen
+    import vlib
+    found = []
+    forced = (opts + ",force=1") if opts != "-" else "force=1"
+    for t in range(tries):
+        if len(found) >= want:
+            break
+        base = chunkgen.gen_png(rng, special_before_plain=(t % 2 == 0))[0]
+        r = vlib.run_cases(impl, [f"a opt {opts} {base.hex()}"]).get("a", "")
+        if not r.startswith("ok "):
+            continue
+        x1 = bytes.fromhex(r[3:])
+        ch = chunk_list(x1)
+        names = [c[4:8] for c in ch]
+        if b"IDAT" not in names:
+            continue
+        idat = names.index(b"IDAT")
+        anc = [i for i in range(1, idat) if names[i] not in (b"PLTE",)]
+        variants = [x1]
+        for _ in range(4):
+            if len(anc) >= 2:
+                i, j = rng.sample(anc, 2)
+                c2 = list(ch)
+                c2[i], c2[j] = c2[j], c2[i]
+                variants.append(x1[:8] + b"".join(c2))
+            if anc:
+                # a plain chunk moved behind the image data
+                i = rng.choice(anc)
+                if names[i] in (b"tEXt", b"zTXt", b"iTXt", b"tIME") or names[i][0:1].islower() and names[i] not in (b"tRNS", b"bKGD", b"hIST", b"sBIT", b"gAMA", b"cHRM", b"sRGB", b"iCCP", b"pHYs", b"sPLT", b"acTL", b"fcTL", b"cICP", b"mDCv", b"cLLi"):
+                    c2 = list(ch)
+                    c = c2.pop(i)
+                    c2.insert(len(c2) - 1, c)
+                    variants.append(x1[:8] + b"".join(c2))
+        lines = []
+        for k, v in enumerate(variants):
+            lines.append(f"z{k} opt {opts} {v.hex()}")
+            lines.append(f"y{k} opt {forced} {v.hex()}")
+        rr = vlib.run_cases(impl, lines)
+        for k, v in enumerate(variants):
+            z, y = rr.get(f"z{k}", ""), rr.get(f"y{k}", "")
+            if z == "ok " + v.hex() and y.startswith("ok ") and y != z and len(y) >= len(z):
+                # the forced result may differ only because its image data was recompressed; what matters is a difference
+                # that the unforced re-serialisation has too: the order of the chunks
+                def order(b):
+                    o = []
+                    for c in chunk_list(b):
+                        if not (o and o[-1] == c[4:8] == b"IDAT"):
+                            o.append(c[4:8])
+                    return o
+                if order(bytes.fromhex(y[3:])) != order(v):
+                    found.append(v)
+                    break
+    return found
